@@ -43,7 +43,7 @@ pub fn worker_main(props: &[Property], args: &[String]) -> i32 {
     let Some(sc) = prop.sub(sub) else { return 4 };
     install_panic_hook();
     set_rlimit_as(env_u64("VERIF_AS_LIMIT_MB", 10 * 1024) * 1024 * 1024);
-    WATCH.case_budget_ms.store(env_u64("VERIF_CASE_BUDGET_MS", 120_000), Ordering::Relaxed);
+    WATCH.case_budget_ms.store(env_u64("VERIF_CASE_BUDGET_MS", 30_000), Ordering::Relaxed);
     WATCH.rss_budget_kb.store(env_u64("VERIF_RSS_LIMIT_MB", 3 * 1024) * 1024, Ordering::Relaxed);
     *WATCH.dump_path.lock().unwrap() = Some(format!("{}.hang.json", out));
     *WATCH.header.lock().unwrap() = Some((id.clone(), sub.clone()));
@@ -91,7 +91,7 @@ pub fn exec_case_main(props: &[Property], file: &str) -> i32 {
     install_panic_hook();
     known::set_strict(true);
     set_rlimit_as(env_u64("VERIF_AS_LIMIT_MB", 10 * 1024) * 1024 * 1024);
-    WATCH.case_budget_ms.store(env_u64("VERIF_CASE_BUDGET_MS", 120_000), Ordering::Relaxed);
+    WATCH.case_budget_ms.store(env_u64("VERIF_CASE_BUDGET_MS", 30_000), Ordering::Relaxed);
     WATCH.rss_budget_kb.store(env_u64("VERIF_RSS_LIMIT_MB", 3 * 1024) * 1024, Ordering::Relaxed);
     start_watchdog();
     *WATCH.current.lock().unwrap() = Some((Instant::now(), "null".to_string()));
@@ -267,6 +267,8 @@ pub fn run_main(props: &[Property], id: &str, tier: Tier, seed: u64) -> i32 {
     let mut inconclusive: Vec<String> = Vec::new();
     let mut merged: BTreeMap<String, SubStats> = BTreeMap::new();
     let mut union: BTreeSet<u64> = BTreeSet::new();
+    let mut hang_confirmed: BTreeMap<String, u32> = BTreeMap::new();
+    let mut hang_unconfirmed: Vec<String> = Vec::new();
 
     for (sub, shard, end) in results {
         match end {
@@ -300,11 +302,23 @@ pub fn run_main(props: &[Property], id: &str, tier: Tier, seed: u64) -> i32 {
                 m.wall_s = m.wall_s.max(st.wall_s);
             }
             JobEnd::Hang(path) => {
-                // two-stage confirmation: run the recorded case alone, twice, with a 10x budget
-                let b = env_u64("VERIF_CASE_BUDGET_MS", 120_000) * 10;
-                let (c1, _) = exec_case_child(&exe, &path, b, 6 * 1024);
-                let (c2, _) = exec_case_child(&exe, &path, b, 6 * 1024);
-                if c1 == EXIT_WATCHDOG && c2 == EXIT_WATCHDOG {
+                // two-stage confirmation: run the recorded case alone, twice, with a larger budget.
+                // At most two candidates per sub-check are confirmed (each confirmation costs minutes).
+                let done = hang_confirmed.entry(sub.clone()).or_insert(0u32);
+                if *done >= 2 {
+                    hang_unconfirmed.push(format!("{} shard {}: watchdog tripped (not re-run: two candidates of this sub-check were already examined)", sub, shard));
+                    continue;
+                }
+                *done += 1;
+                let b = env_u64("VERIF_CASE_BUDGET_MS", 30_000) * 4;
+                let (p1, p2) = (path.clone(), path.clone());
+                let (e1, e2) = (exe.clone(), exe.clone());
+                let h1 = std::thread::spawn(move || exec_case_child(&e1, &p1, b, 3 * 1024).0);
+                let h2 = std::thread::spawn(move || exec_case_child(&e2, &p2, b, 3 * 1024).0);
+                let (c1, c2) = (h1.join().unwrap_or(-2), h2.join().unwrap_or(-2));
+                // exit 3 = watchdog (time or memory), -1 = killed by a signal (allocation failure abort)
+                let blown = |c: i32| c == EXIT_WATCHDOG || c == -1;
+                if blown(c1) && blown(c2) {
                     let dir = format!("{}/replays/found", vdir);
                     let _ = std::fs::create_dir_all(&dir);
                     let dest = format!("{}/{}-hang-{}.json", dir, sanitize(&sub), shard);
@@ -322,6 +336,9 @@ pub fn run_main(props: &[Property], id: &str, tier: Tier, seed: u64) -> i32 {
             }
             JobEnd::Broken(msg) => inconclusive.push(format!("{} shard {}: {}", sub, shard, msg)),
         }
+    }
+    if violations.is_empty() {
+        inconclusive.extend(hang_unconfirmed);
     }
     for m in merged.values_mut() {
         m.nontrivial_hashes.sort_unstable();
@@ -342,7 +359,7 @@ pub fn run_main(props: &[Property], id: &str, tier: Tier, seed: u64) -> i32 {
     for f in &files {
         let rel = format!("replays/regress/{}", f);
         let full = format!("{}/{}", vdir, rel);
-        let (code, out) = exec_case_child(&exe, &full, env_u64("VERIF_REPLAY_BUDGET_MS", 20_000), 2048);
+        let (code, out) = exec_case_child(&exe, &full, env_u64("VERIF_REGRESS_BUDGET_MS", 10_000), 1024);
         regress_run += 1;
         let open_entry = entries.iter().find(|e| e.open && e.witness.as_deref() == Some(rel.as_str()));
         match (code, open_entry) {
